@@ -104,13 +104,13 @@ static Sig dense(bool cplx, int N, uint64_t tag) {
     }
     return s;
 }
-// tone of frequency q/(4 nfft) cycles/sample, unit amplitude; phase reduced exactly
-static Sig tone(bool cplx, int N, long long q, int nfft, ld phi0) {
+// tone of frequency q/(ppb nfft) cycles/sample (ppb grid points per bin), unit amplitude; phase reduced exactly
+static Sig tone(bool cplx, int N, long long q, int nfft, ld phi0, int ppb) {
     Sig s;
     s.cplx = cplx;
     s.re.resize((size_t)N);
     s.im.assign((size_t)N, 0.0);
-    const long long M = 4LL * nfft;
+    const long long M = (long long)ppb * nfft;
     for (int i = 0; i < N; ++i) {
         long long r = ((q % M) * (long long)(i % M)) % M;
         if (r < 0) r += M;
@@ -264,19 +264,24 @@ static std::vector<int> uniq(std::vector<int> v) {
         if (std::find(o.begin(), o.end(), x) == o.end()) o.push_back(x);
     return o;
 }
-// segment grids of the DESIGN section: every window length 2..nfft and every overlap for nfft <= full_upto, else 4 x 4
-static std::vector<Cfg> seg_grid(int nfft, int full_upto) {
+// segment grids of the DESIGN section: every window length 2..nfft for nfft <= full_upto (every overlap for window lengths
+// <= ov_upto), else a fixed set of window lengths x overlaps (larger set when deep)
+static std::vector<Cfg> seg_grid(int nfft, int full_upto, int ov_upto = 32, bool deep = false) {
     std::vector<Cfg> g;
     std::vector<int> wls;
     if (nfft <= full_upto) {
         for (int w = 2; w <= nfft; ++w) wls.push_back(w);
+    } else if (deep) {
+        wls = uniq({std::max(2, nfft / 4), nfft / 3, nfft / 2, nfft / 2 + 1, 3 * (nfft / 4), nfft - 1, nfft});
     } else {
         wls = uniq({std::max(2, nfft / 4), nfft / 2, nfft - 1, nfft});
     }
     for (int wl : wls) {
         std::vector<int> novs;
-        if (wl <= 32 && nfft <= full_upto) {
+        if (wl <= ov_upto && nfft <= full_upto) {
             for (int o = 0; o < wl; ++o) novs.push_back(o);
+        } else if (deep) {
+            novs = uniq({0, 1, wl / 4, wl / 2, 3 * (wl / 4), std::max(0, wl - 2), wl - 1});
         } else {
             novs = uniq({0, 1, wl / 2, wl - 1});
         }
@@ -309,10 +314,10 @@ static void density_case(Ctx& ctx, const Sig& x, const std::vector<double>& w, i
 }
 
 static void check_grid(Ctx& ctx, bool T) {
-    const std::vector<int> nffts = {8, 16, 32, 64, 256, 1024, 4096};
+    const std::vector<int> nffts = T ? std::vector<int>{8, 16, 32, 64, 128, 256, 512, 1024, 2048, 4096} : std::vector<int>{8, 16, 32, 64, 256, 1024, 4096};
     const std::vector<int> js = T ? std::vector<int>{0, 1, 2, 5} : std::vector<int>{0, 1, 3};
     for (int nfft : nffts) {
-        for (const Cfg& c : seg_grid(nfft, T ? 64 : 32)) {
+        for (const Cfg& c : seg_grid(nfft, T ? 128 : 32, T ? 64 : 32, T)) {
             const int st = c.wl - c.nov;
             for (int wk = 0; wk < WK_N; ++wk) {
                 if (nfft > 256 && !T && wk >= 4) continue;   // quick: 4 window families for the two largest transforms
@@ -365,8 +370,12 @@ static void check_grid(Ctx& ctx, bool T) {
 // overload forms with documented defaults: hamming window, noverlap = winlen/2, nfft = 2^nextpow2(winlen)
 static void check_forms(Ctx& ctx, bool T) {
     std::vector<int> wls;
-    for (int w = 2; w <= (T ? 130 : 66); ++w) wls.push_back(w);
-    for (int w : {200, 255, 256, 257, 1000, 1024}) wls.push_back(w);
+    for (int w = 2; w <= (T ? 300 : 66); ++w) wls.push_back(w);
+    if (T) {
+        for (int w : {500, 513, 1000, 1023, 1024, 1025, 2000, 3000, 4095, 4097}) wls.push_back(w);
+    } else {
+        for (int w : {100, 200, 255, 256, 257, 1000, 1024}) wls.push_back(w);
+    }
     for (int wl : wls) {
         int p2 = 1;
         while (p2 < wl) p2 *= 2;
@@ -411,11 +420,104 @@ static void check_forms(Ctx& ctx, bool T) {
         }
 }
 
-// tone sweep: 4 frequencies per bin; labelling and power-scaled peak.  A case is one (configuration, window, frequency);
-// the three amplitude letters are run inside it (the failing amplitude is reported as detail "amp").
+// one tone of frequency q/(ppb nfft): labelling (density scaling) and, if bin-centred, the power-scaled peak.  A case is
+// one (configuration, window, frequency); the three amplitude letters are run inside it (the failing amplitude is
+// reported as detail "amp").
+static void tone_case(Ctx& ctx, bool cplx, const Cfg& c, int wk, const std::vector<double>& w, long long q, int ppb, int N) {
+    static const double amps[3] = {1e-3, 1, 1e3};
+    const int nfft = c.nfft;
+    const int nb = cplx ? nfft : nfft / 2 + 1;
+    const ld f0 = (ld)q / (ld)((long long)ppb * nfft);
+    const ld phi0 = 0.3L + 0.37L * (ld)(((q % 5) + 5) % 5);
+    // distance of reference bin k (true frequency k/nfft mod 1) from the tone
+    auto dref = [&](int k) -> ld {
+        ld d = (ld)k / nfft - f0;
+        d -= floorl(d + 0.5L);
+        return fabsl(d);
+    };
+    // exact Welch estimate of the unit tone (one-sided for real input) and its maximum
+    auto exact = [&](const Sig& u, bool power, ld& pm) -> std::vector<ld> {
+        std::vector<ld> Pr = ref_welch(u, w, c.nov, nfft, power, nb);
+        if (!cplx)
+            for (int k = 1; k < nfft / 2; ++k) Pr[(size_t)k] *= 2;
+        pm = 0;
+        for (ld v : Pr) pm = std::max(pm, v);
+        return Pr;
+    };
+    if (ctx.take("welch.tone_label", cfg_params(cplx, c, wk).kv("q", q).kv("ppb", ppb))) {
+        const Sig u = tone(cplx, N, q, nfft, phi0, ppb);
+        ld dmin = 1;
+        for (int k = 0; k < nb; ++k) dmin = std::min(dmin, dref(k));
+        const ld dtol = dmin + 1e-9L / nfft;
+        // is the peak of the exact estimate clearly at the nearest bin(s)?
+        ld pm;
+        const std::vector<ld> Pr = exact(u, false, pm);
+        bool decidable = pm > 0;
+        for (int k = 0; k < nb && decidable; ++k)
+            if (Pr[(size_t)k] >= pm * (1 - 1e-9L) && dref(k) > dtol) decidable = false;
+        if (!decidable) {
+            ctx.note(std::string("tone_label skipped: exact estimate has no clear peak at the nearest bin, ") + (cplx ? "complex" : "real"));
+        } else {
+            ctx.nontrivial();
+            ctx.note(std::string("tone_label decided, ") + (cplx ? "complex" : "real") +
+                     (q % ppb == 0 ? " bin-centred" : ((2 * q) % ppb == 0 ? " half-bin" : " off-centre")));
+        }
+        for (int ai = 0; ai < 3; ++ai) {
+            const double A = amps[ai];
+            const Res r = call_welch(scaled(u, A), w, c.nov, nfft, false, 0);
+            if (!check_shape(ctx, r, cplx, nfft)) break;
+            if (!decidable) continue;
+            int im = 0;
+            for (int i = 1; i < nb; ++i)
+                if (r.pxx[(size_t)i] > r.pxx[(size_t)im]) im = i;
+            ld d = (ld)r.f[(size_t)im] - f0;
+            d -= floorl(d + 0.5L);
+            d = fabsl(d);
+            if (!(d <= dtol)) {
+                const bool fftorder = dref(im) <= dtol;   // classification aid: the values are in FFT order
+                ctx.fail(site_of(cplx), fmt("tone at %.6f: peak index %d labelled f=%.6f", (double)f0, im, r.f[(size_t)im]),
+                         fmt("label within %.6f of the tone (nearest bin)", (double)dmin),
+                         P().kv("aspect", "label").kv("amp", A).kv("imax", im).kv("fftorder", fftorder ? 1 : 0));
+                break;
+            }
+        }
+    }
+    if (q % ppb == 0 && ctx.take("welch.power_peak", cfg_params(cplx, c, wk).kv("q", q).kv("ppb", ppb))) {
+        const Sig u = tone(cplx, N, q, nfft, phi0, ppb);
+        ld pm;
+        exact(u, true, pm);
+        const ld want1 = cplx ? 1.0L : 0.5L;   // mean-square value of the unit tone
+        ctx.worst(std::string("image leakage of exact estimate (rel), ") + (cplx ? "complex" : "real"), (double)fabsl(pm / want1 - 1));
+        const bool decidable = fabsl(pm / want1 - 1) <= 1e-12L;
+        if (!decidable) {
+            ctx.note(std::string("power_peak skipped: image leakage > 1e-12 in the exact estimate, ") + (cplx ? "complex" : "real"));
+        } else {
+            ctx.nontrivial();
+            ctx.note(std::string("power_peak decided, ") + (cplx ? "complex " : "real ") + WKN[wk]);
+        }
+        for (int ai = 0; ai < 3; ++ai) {
+            const double A = amps[ai];
+            const Res r = call_welch(scaled(u, A), w, c.nov, nfft, true, 0);
+            if (!check_shape(ctx, r, cplx, nfft)) break;
+            if (!decidable) continue;
+            double mx = 0;
+            for (double v : r.pxx) mx = std::max(mx, v);
+            const double want = (double)want1 * A * A;
+            const double rel = std::fabs(mx / want - 1);
+            ctx.worst("power peak rel err", rel);
+            if (!(rel <= 1e-9)) {
+                ctx.fail(site_of(cplx), fmt("max(pxx)=%.15g", mx), fmt("%.15g (mean square of the tone)", want),
+                         P().kv("aspect", "peak").kv("amp", A).kv("ratio", mx / want));
+                break;
+            }
+        }
+    }
+}
+
+// tone sweep: ppb frequencies per bin (quick 4, thorough 8) over (0, 0.5) real / (-0.5, 0.5) complex
 static void check_tones(Ctx& ctx, bool T) {
-    const std::vector<int> nffts = T ? std::vector<int>{8, 16, 32, 64, 256} : std::vector<int>{8, 16, 32, 64};
-    const double amps[3] = {1e-3, 1, 1e3};
+    const std::vector<int> nffts = T ? std::vector<int>{8, 16, 32, 64, 128, 256} : std::vector<int>{8, 16, 32, 64};
+    const int ppb = T ? 8 : 4;
     for (int nfft : nffts) {
         for (const Cfg& c : seg_grid(nfft, 0)) {
             const int st = c.wl - c.nov;
@@ -424,186 +526,231 @@ static void check_tones(Ctx& ctx, bool T) {
                 const std::vector<double> w = own_window(wk, c.wl);
                 if (!usable(w)) continue;
                 for (int cplx = 0; cplx < 2; ++cplx) {
-                    const long long qlo = cplx ? -2LL * nfft + 1 : 1, qhi = 2LL * nfft - 1;
-                    const int nb = cplx ? nfft : nfft / 2 + 1;
-                    for (long long q = qlo; q <= qhi; ++q) {
-                        const ld f0 = (ld)q / (ld)(4LL * nfft);
-                        const ld phi0 = 0.3L + 0.37L * (ld)(((q % 5) + 5) % 5);
-                        // distance of reference bin k (true frequency k/nfft mod 1) from the tone
-                        auto dref = [&](int k) -> ld {
-                            ld d = (ld)k / nfft - f0;
-                            d -= floorl(d + 0.5L);
-                            return fabsl(d);
-                        };
-                        // exact Welch estimate of the unit tone (one-sided for real input) and its maximum
-                        auto exact = [&](const Sig& u, bool power, ld& pm) -> std::vector<ld> {
-                            std::vector<ld> Pr = ref_welch(u, w, c.nov, nfft, power, nb);
-                            if (!cplx)
-                                for (int k = 1; k < nfft / 2; ++k) Pr[(size_t)k] *= 2;
-                            pm = 0;
-                            for (ld v : Pr) pm = std::max(pm, v);
-                            return Pr;
-                        };
-                        if (ctx.take("welch.tone_label", cfg_params(cplx != 0, c, wk).kv("q", q))) {
-                            const Sig u = tone(cplx != 0, N, q, nfft, phi0);
-                            ld dmin = 1;
-                            for (int k = 0; k < nb; ++k) dmin = std::min(dmin, dref(k));
-                            const ld dtol = dmin + 1e-9L / nfft;
-                            // is the peak of the exact estimate clearly at the nearest bin(s)?
-                            ld pm;
-                            const std::vector<ld> Pr = exact(u, false, pm);
-                            bool decidable = pm > 0;
-                            for (int k = 0; k < nb && decidable; ++k)
-                                if (Pr[(size_t)k] >= pm * (1 - 1e-9L) && dref(k) > dtol) decidable = false;
-                            if (!decidable) {
-                                ctx.note(std::string("tone_label skipped: exact estimate has no clear peak at the nearest bin, ") + (cplx ? "complex" : "real"));
-                            } else {
-                                ctx.nontrivial();
-                                ctx.note(std::string("tone_label decided, ") + (cplx ? "complex" : "real") +
-                                         (q % 4 == 0 ? " bin-centred" : (q % 2 == 0 ? " half-bin" : " quarter-bin")));
-                            }
-                            for (int ai = 0; ai < 3; ++ai) {
-                                const double A = amps[ai];
-                                const Res r = call_welch(scaled(u, A), w, c.nov, nfft, false, 0);
-                                if (!check_shape(ctx, r, cplx != 0, nfft)) break;
-                                if (!decidable) continue;
-                                int im = 0;
-                                for (int i = 1; i < nb; ++i)
-                                    if (r.pxx[(size_t)i] > r.pxx[(size_t)im]) im = i;
-                                ld d = (ld)r.f[(size_t)im] - f0;
-                                d -= floorl(d + 0.5L);
-                                d = fabsl(d);
-                                if (!(d <= dtol)) {
-                                    const bool fftorder = dref(im) <= dtol;   // classification aid: the values are in FFT order
-                                    ctx.fail(site_of(cplx != 0),
-                                             fmt("tone at %.6f: peak index %d labelled f=%.6f", (double)f0, im, r.f[(size_t)im]),
-                                             fmt("label within %.6f of the tone (nearest bin)", (double)dmin),
-                                             P().kv("aspect", "label").kv("amp", A).kv("imax", im).kv("fftorder", fftorder ? 1 : 0));
-                                    break;
-                                }
-                            }
-                        }
-                        if (q % 4 == 0 && ctx.take("welch.power_peak", cfg_params(cplx != 0, c, wk).kv("q", q))) {
-                            const Sig u = tone(cplx != 0, N, q, nfft, phi0);
-                            ld pm;
-                            exact(u, true, pm);
-                            const ld want1 = cplx ? 1.0L : 0.5L;   // mean-square value of the unit tone
-                            ctx.worst(std::string("image leakage of exact estimate (rel), ") + (cplx ? "complex" : "real"), (double)fabsl(pm / want1 - 1));
-                            const bool decidable = fabsl(pm / want1 - 1) <= 1e-12L;
-                            if (!decidable) {
-                                ctx.note(std::string("power_peak skipped: image leakage > 1e-12 in the exact estimate, ") + (cplx ? "complex" : "real"));
-                            } else {
-                                ctx.nontrivial();
-                                ctx.note(std::string("power_peak decided, ") + (cplx ? "complex " : "real ") + WKN[wk]);
-                            }
-                            for (int ai = 0; ai < 3; ++ai) {
-                                const double A = amps[ai];
-                                const Res r = call_welch(scaled(u, A), w, c.nov, nfft, true, 0);
-                                if (!check_shape(ctx, r, cplx != 0, nfft)) break;
-                                if (!decidable) continue;
-                                double mx = 0;
-                                for (double v : r.pxx) mx = std::max(mx, v);
-                                const double want = (double)want1 * A * A;
-                                const double rel = std::fabs(mx / want - 1);
-                                ctx.worst("power peak rel err", rel);
-                                if (!(rel <= 1e-9)) {
-                                    ctx.fail(site_of(cplx != 0), fmt("max(pxx)=%.15g", mx), fmt("%.15g (mean square of the tone)", want),
-                                             P().kv("aspect", "peak").kv("amp", A).kv("ratio", mx / want));
-                                    break;
-                                }
-                            }
-                        }
+                    const long long half = (long long)(ppb / 2) * nfft;
+                    for (long long q = cplx ? -half + 1 : 1; q <= half - 1; ++q) tone_case(ctx, cplx != 0, c, wk, w, q, ppb, N);
+                }
+            }
+        }
+    }
+    // nfft 512 (thorough): the full 8-per-bin sweep on a reduced configuration set (2 window lengths x 2 overlaps x 3 windows)
+    if (T) {
+        const int nfft = 512;
+        for (int wl : {nfft / 2, nfft})
+            for (int nov : {0, wl / 2}) {
+                const Cfg c{nfft, wl, nov};
+                const int st = wl - nov, N = wl + 2 * st + (st - 1);
+                for (int wk : {WK_RECT, WK_HAMM, WK_HANNP}) {
+                    const std::vector<double> w = own_window(wk, wl);
+                    for (int cplx = 0; cplx < 2; ++cplx) {
+                        const long long half = 4LL * nfft;
+                        for (long long q = cplx ? -half + 1 : 1; q <= half - 1; ++q) tone_case(ctx, cplx != 0, c, wk, w, q, 8, N);
                     }
                 }
+            }
+    }
+    // large transforms (thorough): a sparse frequency set next to DC, next to +-0.5, bin-centred, quarter- and eighth-bin offsets
+    if (T) {
+        for (int nfft : {1024, 4096})
+            for (int wl : {nfft / 2, nfft})
+                for (int wk : {WK_HAMM, WK_HANNP}) {
+                    const Cfg c{nfft, wl, wl / 2};
+                    const std::vector<double> w = own_window(wk, wl);
+                    const int N = wl + 2 * (wl / 2) + 7;
+                    const long long H = 4LL * nfft;   // q of frequency 0.5 at 8 points per bin
+                    for (int cplx = 0; cplx < 2; ++cplx)
+                        for (long long q : {24LL, 8LL * 3 + 1, H / 4, H / 4 + 2, H / 2 - 8, H / 2 + 3, H - 40, H - 33, 8LL * (nfft / 3), 8LL * (nfft / 3) + 5}) {
+                            tone_case(ctx, cplx != 0, c, wk, w, q, 8, N);
+                            if (cplx) tone_case(ctx, true, c, wk, w, -q, 8, N);
+                        }
+                }
+    }
+}
+
+// ------------------------------------------------------------------------------------------------ coherence
+// second-signal letters.  Scaled copies (kind 0): first signal = sx * letter, second = sy * letter; the statement puts no
+// restriction on the scale, so the scales span 1e-15 .. 1e15 (no overflow / underflow: powers stay within 1e-32 .. 1e32).
+struct YL {
+    const char* name;
+    double sx, sy;
+    int kind;    // 0 scaled copy, 1 filtered copy, 2 independent letter, 3 delayed copy, 4 copy + independent letter
+    bool deep;   // thorough tier only
+};
+static const YL YS[] = {
+  {"x*-3", 1, -3, 0, false},        {"x*1e-3", 1, 1e-3, 0, false},   {"x*1", 1, 1, 0, false},         {"x*1e3", 1, 1e3, 0, false},
+  {"filtered", 1, 1, 1, false},     {"independent", 1, 1, 2, false}, {"x*1e-15", 1, 1e-15, 0, false}, {"x*-1e-13", 1, -1e-13, 0, false},
+  {"x*1e-10", 1, 1e-10, 0, false},  {"x*1e10", 1, 1e10, 0, false},   {"x*1e13", 1, 1e13, 0, false},   {"x*-1e15", 1, -1e15, 0, false},
+  {"1e-8x,1e8x", 1e-8, 1e8, 0, false},
+  {"x*-1", 1, -1, 0, true},         {"3x,-7x", 3, -7, 0, true},      {"1e5x,1e-5x", 1e5, 1e-5, 0, true}, {"x*1e6", 1, 1e6, 0, true},
+  {"x*-1e-6", 1, -1e-6, 0, true},   {"delayed3", 1, 1, 3, true},     {"x+0.5n", 1, 1, 4, true},
+};
+static const int NY = (int)(sizeof(YS) / sizeof(YS[0]));
+
+// form 0: (x,y,win,nov,nfft); 1: (x,y,winlen,nov,nfft) [hamming]; 2: (x,y,win); 3: (x,y,winlen)
+static void coh_case(Ctx& ctx, int nfft, const std::vector<double>& w, const char* wname, int nov, int form, const YL& yl, int N) {
+    const int wl = (int)w.size();
+    P p = P().kv("nfft", nfft).kv("win", wname).kv("winlen", wl).kv("nov", nov).kv("y", yl.name).kv("form", form);
+    if (N > 0) p.kv("N", N);
+    if (!ctx.take(yl.kind == 0 ? "mscohere.scaled_copy" : "mscohere.range", p)) return;
+    const int st = wl - nov;
+    if (N <= 0) N = wl + 3 * st + (st - 1);
+    const Sig base = dense(false, N, 31);
+    const Sig x = yl.sx == 1 ? base : scaled(base, yl.sx);
+    Sig y = x;
+    if (yl.kind == 0) {
+        y = scaled(base, yl.sy);
+    } else if (yl.kind == 1) {
+        for (int i = 0; i < N; ++i)
+            y.re[(size_t)i] = x.re[(size_t)i] + (i >= 1 ? 0.5 * x.re[(size_t)i - 1] : 0) - (i >= 2 ? 0.25 * x.re[(size_t)i - 2] : 0);
+    } else if (yl.kind == 2) {
+        y = dense(false, N, 37);
+    } else if (yl.kind == 3) {
+        for (int i = 0; i < N; ++i) y.re[(size_t)i] = i >= 3 ? x.re[(size_t)i - 3] : 0.25 * x.re[(size_t)i];
+    } else {
+        const Sig nz = dense(false, N, 41);
+        for (int i = 0; i < N; ++i) y.re[(size_t)i] = x.re[(size_t)i] + 0.5 * nz.re[(size_t)i];
+    }
+    const bool farscale = yl.kind == 0 && std::fabs(std::log10(std::fabs(yl.sy / yl.sx))) > 6;
+    ctx.nontrivial();
+    ctx.note(fmt("mscohere form %d %s", form, yl.kind == 0 ? (farscale ? "scaled, ratio beyond 1e+-6" : "scaled") : yl.name));
+    std::vector<double> coh;
+    try {
+        const arr_real ax = x.real_arr(), ay = y.real_arr();
+        const arr_real o = form == 0   ? mscohere(ax, ay, to_arr(w), nov, nfft)
+                           : form == 1 ? mscohere(ax, ay, wl, nov, nfft)
+                           : form == 2 ? mscohere(ax, ay, to_arr(w))
+                                       : mscohere(ax, ay, wl);
+        coh.assign(o.begin(), o.end());
+    } catch (const std::exception& e) {
+        ctx.fail("mscohere", std::string("threw: ") + e.what(), "coherence", P().kv("aspect", "threw"));
+        return;
+    }
+    if ((int)coh.size() != nfft / 2 + 1) {
+        ctx.fail("mscohere", fmt("size %zu", coh.size()), fmt("%d", nfft / 2 + 1), P().kv("aspect", "size"));
+        return;
+    }
+    for (int k = 0; k < (int)coh.size(); ++k) {
+        const double v = coh[(size_t)k];
+        if (!(v >= -1e-12 && v <= 1 + 1e-12)) {   // also NaN: the letters are dense, every bin has power
+            ctx.fail("mscohere", fmt("coh[%d]=%.17g", k, v), "in [0,1]", P().kv("aspect", "range").kv("k", k));
+            break;
+        }
+        ctx.worst("coherence excess over 1", v - 1);
+        if (yl.kind == 0) {
+            ctx.worst("scaled copy |coh-1|", std::fabs(v - 1));
+            if (farscale) ctx.worst("scaled copy |coh-1|, scale ratio beyond 1e+-6", std::fabs(v - 1));
+            if (!(std::fabs(v - 1) <= 1e-9)) {
+                ctx.fail("mscohere", fmt("coh[%d]=%.17g for y = %s", k, v, yl.name), "1 within 1e-9", P().kv("aspect", "one").kv("k", k));
+                break;
             }
         }
     }
 }
 
-// ------------------------------------------------------------------------------------------------ coherence
 static void check_coherence(Ctx& ctx, bool T) {
-    const std::vector<int> nffts = {8, 16, 32, 64, 256, 1024, 4096};
-    // second-signal letters.  Scaled copies (kind 0): first signal = sx * letter, second = sy * letter; the statement puts no
-    // restriction on the scale, so the scales span 1e-15 .. 1e15 (no overflow / underflow: powers stay within 1e-32 .. 1e32).
-    struct YL {
-        const char* name;
-        double sx, sy;
-        int kind;   // 0 scaled copy, 1 filtered copy, 2 independent letter
-    };
-    static const YL YS[] = {
-      {"x*-3", 1, -3, 0},      {"x*1e-3", 1, 1e-3, 0},       {"x*1", 1, 1, 0},         {"x*1e3", 1, 1e3, 0},
-      {"filtered", 1, 1, 1},   {"independent", 1, 1, 2},     {"x*1e-15", 1, 1e-15, 0}, {"x*-1e-13", 1, -1e-13, 0},
-      {"x*1e-10", 1, 1e-10, 0}, {"x*1e10", 1, 1e10, 0},      {"x*1e13", 1, 1e13, 0},   {"x*-1e15", 1, -1e15, 0},
-      {"1e-8x,1e8x", 1e-8, 1e8, 0},
-    };
-    const int NY = (int)(sizeof(YS) / sizeof(YS[0]));
+    const std::vector<int> nffts = T ? std::vector<int>{8, 16, 32, 64, 128, 256, 512, 1024, 2048, 4096} : std::vector<int>{8, 16, 32, 64, 256, 1024, 4096};
     for (int nfft : nffts) {
-        for (const Cfg& c : seg_grid(nfft, T ? 32 : 16)) {
-            const int st = c.wl - c.nov;
-            for (int wk = 0; wk < 4; ++wk) {
+        for (const Cfg& c : seg_grid(nfft, T ? 64 : 16, 32, T)) {
+            for (int wk = 0; wk < (T ? (int)WK_N : 4); ++wk) {
                 const std::vector<double> w = own_window(wk, c.wl);
                 if (!usable(w)) continue;
                 for (int yk = 0; yk < NY; ++yk) {
                     const YL& yl = YS[yk];
-                    // form 0: (x,y,win,nov,nfft); 1: (x,y,winlen,nov,nfft) [hamming]; 2: (x,y,win); 3: (x,y,winlen)
+                    if (yl.deep && !T) continue;
                     for (int form = 0; form < 4; ++form) {
                         if ((form == 1 || form == 3) && wk != WK_HAMM) continue;
                         int p2 = 1;
                         while (p2 < c.wl) p2 *= 2;
                         if (form >= 2 && (c.nov != c.wl / 2 || nfft != p2)) continue;
-                        const int N = c.wl + 3 * st + (st - 1);
-                        P p = P().kv("nfft", nfft).kv("win", WKN[wk]).kv("winlen", c.wl).kv("nov", c.nov).kv("y", yl.name).kv("form", form);
-                        if (!ctx.take(yl.kind == 0 ? "mscohere.scaled_copy" : "mscohere.range", p)) continue;
-                        const Sig base = dense(false, N, 31);
-                        const Sig x = yl.sx == 1 ? base : scaled(base, yl.sx);
-                        Sig y = x;
-                        if (yl.kind == 0) {
-                            y = scaled(base, yl.sy);
-                        } else if (yl.kind == 1) {
-                            for (int i = 0; i < N; ++i)
-                                y.re[(size_t)i] = x.re[(size_t)i] + (i >= 1 ? 0.5 * x.re[(size_t)i - 1] : 0) - (i >= 2 ? 0.25 * x.re[(size_t)i - 2] : 0);
-                        } else {
-                            y = dense(false, N, 37);
-                        }
-                        ctx.nontrivial();
-                        ctx.note(fmt("mscohere form %d %s", form, yl.kind == 0 ? (std::fabs(std::log10(std::fabs(yl.sy / yl.sx))) > 6 ? "scaled, ratio beyond 1e+-6" : "scaled") : yl.name));
-                        std::vector<double> coh;
-                        try {
-                            const arr_real ax = x.real_arr(), ay = y.real_arr();
-                            const arr_real o = form == 0   ? mscohere(ax, ay, to_arr(w), c.nov, nfft)
-                                               : form == 1 ? mscohere(ax, ay, c.wl, c.nov, nfft)
-                                               : form == 2 ? mscohere(ax, ay, to_arr(w))
-                                                           : mscohere(ax, ay, c.wl);
-                            coh.assign(o.begin(), o.end());
-                        } catch (const std::exception& e) {
-                            ctx.fail("mscohere", std::string("threw: ") + e.what(), "coherence", P().kv("aspect", "threw"));
-                            continue;
-                        }
-                        if ((int)coh.size() != nfft / 2 + 1) {
-                            ctx.fail("mscohere", fmt("size %zu", coh.size()), fmt("%d", nfft / 2 + 1), P().kv("aspect", "size"));
-                            continue;
-                        }
-                        for (int k = 0; k < (int)coh.size(); ++k) {
-                            const double v = coh[(size_t)k];
-                            if (!(v >= -1e-12 && v <= 1 + 1e-12)) {   // also NaN: the letters are dense, every bin has power
-                                ctx.fail("mscohere", fmt("coh[%d]=%.17g", k, v), "in [0,1]", P().kv("aspect", "range").kv("k", k));
-                                break;
-                            }
-                            ctx.worst("coherence excess over 1", v - 1);
-                            if (yl.kind == 0) {
-                                ctx.worst("scaled copy |coh-1|", std::fabs(v - 1));
-                                if (std::fabs(std::log10(std::fabs(yl.sy / yl.sx))) > 6) ctx.worst("scaled copy |coh-1|, scale ratio beyond 1e+-6", std::fabs(v - 1));
-                                if (!(std::fabs(v - 1) <= 1e-9)) {
-                                    ctx.fail("mscohere", fmt("coh[%d]=%.17g for y = %s", k, v, yl.name), "1 within 1e-9", P().kv("aspect", "one").kv("k", k));
-                                    break;
-                                }
-                            }
-                        }
+                        coh_case(ctx, nfft, w, WKN[wk], c.nov, form, yl, 0);
                     }
                 }
             }
         }
     }
+    // ---- default-argument overload forms with window lengths that are not powers of two (nfft = 2^nextpow2(winlen),
+    //      noverlap = winlen/2, hamming for the winlen forms)
+    std::vector<int> wls;
+    if (T) {
+        for (int w = 2; w <= 300; ++w) wls.push_back(w);
+        for (int w : {500, 513, 1000, 1023, 1025, 2000, 3000, 4095, 4097}) wls.push_back(w);
+    } else {
+        wls = {3, 5, 6, 7, 9, 12, 17, 24, 31, 33, 48, 63, 65, 100, 129, 200, 255, 257, 1000};
+    }
+    for (int wl : wls) {
+        if ((wl & (wl - 1)) == 0) continue;   // powers of two are covered by the grid above
+        int p2 = 1;
+        while (p2 < wl) p2 *= 2;
+        for (int form = 1; form <= 3; ++form) {
+            const int wk = form == 2 ? WK_BLACK : WK_HAMM;
+            const std::vector<double> w = own_window(wk, wl);
+            if (!usable(w)) continue;
+            for (int yk : {3, 4, 5, 7, 10})   // x*1e3, filtered, independent, x*-1e-13, x*1e13
+                coh_case(ctx, form == 1 ? 2 * p2 : p2, w, WKN[wk], wl / 2, form, YS[yk], wl + 3 * (wl - wl / 2) + 5);
+        }
+    }
+}
+
+// ------------------------------------------------------------------------------------------------ big sizes (both tiers)
+// Signals of 70 000 and 140 000 samples with nfft 256 and 8192 (window length = nfft): behaviour that only shows above a
+// size threshold (retained buffers, 32-bit products such as length * nfft/2, recurrences whose error grows with the index).
+// Oracles: power identity with own segmentation; level of a bin-centred tone (complex: A^2 for any window; real: A^2/2 with
+// the periodic Hann window, whose transform vanishes two bins away, so the image does not leak); label of a real tone a
+// third of the way up the band (main lobe far from DC / Nyquist, the image is > 40 dB below the decision margin);
+// coherence of scaled copies / range.
+static void check_big(Ctx& ctx) {
+    for (int N : {70000, 140000})
+        for (int nfft : {256, 8192})
+            for (int nov : {nfft / 2, nfft - nfft / 8})
+                for (int wk : {WK_HAMM, WK_HANNP}) {
+                    const Cfg c{nfft, nfft, nov};
+                    std::vector<double> w;
+                    auto win = [&]() -> const std::vector<double>& {
+                        if (w.empty()) w = own_window(wk, nfft);
+                        return w;
+                    };
+                    for (int cplx = 0; cplx < 2; ++cplx) {
+                        if (ctx.take("welch.density_sum", cfg_params(cplx != 0, c, wk).kv("N", N))) density_case(ctx, dense(cplx != 0, N, 43), win(), nov, nfft, 0);
+                        // bin-centred tone at bin k0 = nfft/3 (+- for complex): power-scaled peak, amplitude 3
+                        for (int sgn = (cplx ? -1 : 1); sgn <= 1; sgn += 2) {
+                            const long long k0 = (long long)sgn * (nfft / 3);
+                            if ((cplx || wk == WK_HANNP) && ctx.take("welch.power_peak", cfg_params(cplx != 0, c, wk).kv("N", N).kv("k", k0))) {
+                                ctx.nontrivial();
+                                ctx.note("big: power_peak");
+                                const double A = 3;
+                                const Res r = call_welch(scaled(tone(cplx != 0, N, k0, nfft, 0.3L, 1), A), win(), nov, nfft, true, 0);
+                                if (check_shape(ctx, r, cplx != 0, nfft)) {
+                                    double mx = 0;
+                                    for (double v : r.pxx) mx = std::max(mx, v);
+                                    const double want = (cplx ? 1.0 : 0.5) * A * A, rel = std::fabs(mx / want - 1);
+                                    ctx.worst("power peak rel err (big sizes)", rel);
+                                    if (!(rel <= 1e-9))
+                                        ctx.fail(site_of(cplx != 0), fmt("max(pxx)=%.15g", mx), fmt("%.15g (mean square of the tone)", want),
+                                                 P().kv("aspect", "peak").kv("ratio", mx / want));
+                                }
+                            }
+                        }
+                        // real tone at k0 + {0, 1/4, 3/4} bins: the peak must carry the nearest label
+                        if (!cplx)
+                            for (int off : {0, 1, 3}) {
+                                const long long q = 4LL * (nfft / 3) + off;
+                                if (!ctx.take("welch.tone_label", cfg_params(false, c, wk).kv("N", N).kv("q", q).kv("ppb", 4))) continue;
+                                ctx.nontrivial();
+                                ctx.note("big: tone_label");
+                                const Res r = call_welch(tone(false, N, q, nfft, 0.3L, 4), win(), nov, nfft, false, 0);
+                                if (!check_shape(ctx, r, false, nfft)) continue;
+                                int im = 0;
+                                for (int i = 1; i < (int)r.pxx.size(); ++i)
+                                    if (r.pxx[(size_t)i] > r.pxx[(size_t)im]) im = i;
+                                const double f0 = (double)q / (4.0 * nfft);
+                                if (!(std::fabs(r.f[(size_t)im] - f0) <= 0.5 / nfft + 1e-12))
+                                    ctx.fail("welch_real", fmt("tone at %.7f: peak index %d labelled f=%.7f", f0, im, r.f[(size_t)im]),
+                                             "label within half a bin of the tone", P().kv("aspect", "label").kv("imax", im));
+                            }
+                    }
+                    // coherence on the same sizes: scaled copies (1e3, -1e-13), filtered and independent letters
+                    if (wk == WK_HAMM)
+                        for (int yk : {3, 7, 4, 5}) coh_case(ctx, nfft, win(), WKN[wk], nov, 0, YS[yk], N);
+                }
 }
 
 int main(int argc, char** argv) {
@@ -614,5 +761,6 @@ int main(int argc, char** argv) {
     check_forms(ctx, T);
     check_tones(ctx, T);
     check_coherence(ctx, T);
+    check_big(ctx);
     return ctx.finish();
 }
